@@ -490,4 +490,230 @@ theorem rule_til (E : Env) (k : OK ρ) (hk : KeepsWindow k) (n fuel : Nat) (t r 
         | error e => simp [hk2]
         | ok x => obtain ⟨res, s4⟩ := x; cases res <;> simp [hk2, upd, g4]
 
+/-! #### RULE_CHOICE -/
+
+/-- operands of a variadic instruction: `rule[1]` = number of alternatives, `rule[2 + j]` = alternative j -/
+def opsList (rs : List ρ) : Operands ρ :=
+  ⟨fun j => if 2 ≤ j then rs[j - 2]? else none, opsWord [(1, rs.length)], fun _ => .nil⟩
+
+/-- one iteration of the loop over all alternatives but the last: local number 0 = i, capture state 0 = cs -/
+def ChoiceBody (k : OK ρ) (rs : List ρ) (pos : Nat) (body : Loc → St → Except Err Out) : Prop :=
+  ∀ (L : Loc) (s : St) (j : Nat) (r : ρ), L.num 0 = j → rs[j]? = some r → L.ptr 0 = some pos →
+    match k r s pos with
+    | .error e => body L s = .error e
+    | .ok (some p, s1) => body L s = .ok (.ret (some p, up1 s1))
+    | .ok (none, s1) => ∃ L1, body L s = .ok (.cont L1 (capLoad s1 (L.cs 0))) ∧ L1.num 0 = j + 1 ∧ L1.ptr 0 = some pos ∧
+        L1.cs 0 = L.cs 0
+
+/-- the loop followed by what comes after it (`up1; goto tail` on the last alternative) is `Op.choiceLoop` on the remaining
+    alternatives -/
+theorem choice_loop (k : OK ρ) (rs : List ρ) (cs : CapState) (pos : Nat) (cond : Loc → St → Bool)
+    (body rest : Loc → St → Except Err Out)
+    (hcond : ∀ L s, cond L s = decide (L.num 0 < rs.length - 1)) (hbody : ChoiceBody k rs pos body)
+    (hrest : ∀ L s (r : ρ), L.ptr 0 = some pos → rs[rs.length - 1]? = some r →
+      rest L s = (match k r (up1 s) pos with | .error e => .error e | .ok x => .ok (.ret x))) :
+    ∀ (m j f : Nat) (L : Loc) (s : St), j + m + 1 = rs.length → m + 1 ≤ f → L.num 0 = j → L.ptr 0 = some pos → L.cs 0 = cs →
+      (match loopN cond body f L s with
+        | .error e => (Except.error e : Except Err Out)
+        | .ok (.cont L' s') => rest L' s'
+        | .ok (.brk _ _) => .error .badop
+        | .ok (.ret x) => .ok (.ret x)) =
+      (match Op.choiceLoop k cs (rs.drop j) s pos with | .error e => .error e | .ok x => .ok (.ret x)) := by
+  intro m
+  induction m with
+  | zero =>
+    intro j f L s hj hf hn hp hc
+    obtain ⟨f', rfl⟩ : ∃ f', f = f' + 1 := ⟨f - 1, by omega⟩
+    have hjl : j = rs.length - 1 := by omega
+    have hlt : ¬ L.num 0 < rs.length - 1 := by omega
+    have hr : ∃ r, rs[j]? = some r := ⟨rs[j]'(by omega), by simp⟩
+    obtain ⟨r, hr⟩ := hr
+    have hdrop : rs.drop j = [r] := by
+      rw [List.drop_eq_getElem_cons (by omega : j < rs.length)]
+      have : rs.drop (j + 1) = [] := List.drop_eq_nil_of_le (by omega)
+      rw [this]
+      have := List.getElem?_eq_some_iff.mp hr
+      obtain ⟨_, h2⟩ := this; rw [h2]
+    simp only [loopN, hcond, hlt, decide_false, Bool.false_eq_true, if_false, hdrop, Op.choiceLoop]
+    exact hrest L s r hp (by rw [← hjl]; exact hr)
+  | succ m ih =>
+    intro j f L s hj hf hn hp hc
+    obtain ⟨f', rfl⟩ : ∃ f', f = f' + 1 := ⟨f - 1, by omega⟩
+    have hlt : L.num 0 < rs.length - 1 := by omega
+    have hjl : j < rs.length := by omega
+    have hj1 : j + 1 < rs.length := by omega
+    have hdrop : rs.drop j = rs[j] :: rs[j + 1] :: rs.drop (j + 2) := by
+      rw [List.drop_eq_getElem_cons hjl, List.drop_eq_getElem_cons hj1]
+    have hb := hbody L s j rs[j] hn (by simp) hp
+    simp only [loopN, hcond, hlt, decide_true, if_true, hdrop, Op.choiceLoop]
+    cases hk : k rs[j] s pos with
+    | error e => simp only [hk] at hb; simp [hb, bind, Except.bind]
+    | ok x =>
+      obtain ⟨res, s1⟩ := x
+      cases res with
+      | some p => simp only [hk] at hb; simp [hb, bind, Except.bind]
+      | none =>
+        simp only [hk] at hb
+        obtain ⟨L1, h1, h2, h3, h4⟩ := hb
+        have := ih (j + 1) f' L1 (capLoad s1 (L.cs 0)) (by omega) (by omega) h2 h3 (h4.trans hc)
+        rw [List.drop_eq_getElem_cons hj1] at this
+        simp only [h1, bind, Except.bind, hc] at this ⊢
+        exact this
+
+theorem choice_body (E : Env) (k : OK ρ) (rs : List ρ) (pos fuel : Nat) :
+    ChoiceBody k rs pos (fun L s => execL E k (opsList rs) fuel Gen.PegSkel.RULE_CHOICE_body0 L s) := by
+  intro L s j r hn hr hp
+  simp only [Gen.PegSkel.RULE_CHOICE_body0, execL, execStmt, evalCond, evalRE, evalNE, opsList]
+  have h2 : rs[L.num 0]? = some r := by rw [hn]; exact hr
+  cases hk : k r s pos with
+  | error e => simp [h2, hk, hp, bind, Except.bind]
+  | ok x =>
+    obtain ⟨res, s1⟩ := x
+    cases res <;> simp [h2, hr, hk, hp, hn, bind, Except.bind, upd]
+
+/-- RULE_CHOICE: one `cap_save` for the whole choice; every alternative but the last is tried under `down1`, a failing one is
+    rolled back with `cap_load`; the last alternative is a tail call after `up1` -/
+theorem rule_choice (E : Env) (k : OK ρ) (n fuel : Nat) (rs : List ρ) (s : St) (pos : Nat) (hf : rs.length + 1 ≤ fuel) :
+    runL E k (opsList rs) fuel Gen.PegSkel.RULE_CHOICE s pos = Op.step E k n (.choice rs) s pos := by
+  have hc0 : ∀ L s, evalCond E (opsList rs) L s (.tagZero 1) = (rs.length == 0) :=
+    fun _ _ => by simp [evalCond, opsList, opsWord]
+  simp only [runL, Gen.PegSkel.RULE_CHOICE, execL, execStmt, evalNE, Loc.init, Op.step, hc0]
+  by_cases he : rs.isEmpty = true
+  · have : rs.length = 0 := by simpa using he
+    simp [he, this]
+  · have hlen : rs.length ≠ 0 := by simpa using he
+    have hlen' : (rs.length == 0) = false := by simpa using hlen
+    simp only [he, hlen', Bool.false_eq_true, if_false]
+    cases hd : down1 s with
+    | error e => simp [hd, bind, Except.bind]
+    | ok s0 =>
+      simp only [hd, bind, Except.bind]
+      have key := choice_loop k rs (capSave s0) pos
+        (fun L s => evalCond E (opsList rs) L s (.numLtWordPred 0 (.op 1)))
+        (fun L s => execL E k (opsList rs) fuel Gen.PegSkel.RULE_CHOICE_body0 L s)
+        (fun L s => execL E k (opsList rs) fuel Gen.PegSkel.RULE_CHOICE_rest0 L s)
+        (fun L s => by simp [evalCond, evalWE, opsList, opsWord])
+        (choice_body E k rs pos fuel)
+        (fun L s r hp hr => by
+          have h2le : 2 ≤ 1 + rs.length := by omega
+          have hx : rs[1 + rs.length - 2]? = some r := by
+            rw [show 1 + rs.length - 2 = rs.length - 1 by omega]; exact hr
+          simp [Gen.PegSkel.RULE_CHOICE_rest0, execL, execStmt, evalRE, opsList, opsWord, h2le, hx, hp, bind, Except.bind]
+          cases k r (up1 s) pos <;> rfl)
+        (rs.length - 1) 0 fuel
+        { ptr := fun x => if x = 0 then some pos else none, cs := upd (fun _ => ⟨0, 0, 0⟩) 0 (capSave s0), val := fun _ => .nil,
+          num := upd (fun _ => 0) 0 0, oldmode := false } s0 (by omega) (by omega) (by simp [upd]) (by simp) (by simp [upd])
+      simp only [List.drop_zero] at key
+      generalize loopN _ _ fuel _ s0 = X at key ⊢
+      cases hc : Op.choiceLoop k (capSave s0) rs s0 pos <;> rcases X with e | (⟨L', s'⟩ | ⟨L', s'⟩ | x) <;> simp_all
+
+/-! #### RULE_SEQUENCE -/
+
+/-- one iteration: `text = peg_rule(s, args[i], text); i++` -/
+def SeqBody (k : OK ρ) (rs : List ρ) (body : Loc → St → Except Err Out) : Prop :=
+  ∀ (L : Loc) (s : St) (j pos : Nat) (r : ρ), L.num 0 = j → rs[j]? = some r → L.ptr 0 = some pos →
+    match k r s pos with
+    | .error e => body L s = .error e
+    | .ok (res, s1) => ∃ L1, body L s = .ok (.cont L1 s1) ∧ L1.num 0 = j + 1 ∧ L1.ptr 0 = res
+
+theorem seq_loop (k : OK ρ) (rs : List ρ) (cond : Loc → St → Bool) (body rest : Loc → St → Except Err Out)
+    (hcond : ∀ L s, cond L s = ((L.ptr 0).isSome && decide (L.num 0 < rs.length - 1))) (hbody : SeqBody k rs body)
+    (hrest0 : ∀ L s, L.ptr 0 = none → rest L s = .ok (.ret (none, up1 s)))
+    (hrest : ∀ L s (pos : Nat) (r : ρ), L.ptr 0 = some pos → rs[rs.length - 1]? = some r →
+      rest L s = (match k r (up1 s) pos with | .error e => .error e | .ok x => .ok (.ret x))) :
+    ∀ (m j f : Nat) (L : Loc) (s : St) (pos : Nat), j + m + 1 = rs.length → m + 1 ≤ f → L.num 0 = j → L.ptr 0 = some pos →
+      (match loopN cond body f L s with
+        | .error e => (Except.error e : Except Err Out)
+        | .ok (.cont L' s') => rest L' s'
+        | .ok (.brk _ _) => .error .badop
+        | .ok (.ret x) => .ok (.ret x)) =
+      (match Op.seqLoop k (rs.drop j) s pos with | .error e => .error e | .ok x => .ok (.ret x)) := by
+  intro m
+  induction m with
+  | zero =>
+    intro j f L s pos hj hf hn hp
+    obtain ⟨f', rfl⟩ : ∃ f', f = f' + 1 := ⟨f - 1, by omega⟩
+    have hjl : j = rs.length - 1 := by omega
+    have hlt : ¬ L.num 0 < rs.length - 1 := by omega
+    obtain ⟨r, hr⟩ : ∃ r, rs[j]? = some r := ⟨rs[j]'(by omega), by simp⟩
+    have hdrop : rs.drop j = [r] := by
+      rw [List.drop_eq_getElem_cons (by omega : j < rs.length)]
+      have : rs.drop (j + 1) = [] := List.drop_eq_nil_of_le (by omega)
+      rw [this]
+      obtain ⟨_, h2⟩ := List.getElem?_eq_some_iff.mp hr; rw [h2]
+    simp only [loopN, hcond, hlt, decide_false, Bool.and_false, Bool.false_eq_true, if_false, hdrop, Op.seqLoop]
+    exact hrest L s pos r hp (by rw [← hjl]; exact hr)
+  | succ m ih =>
+    intro j f L s pos hj hf hn hp
+    obtain ⟨f', rfl⟩ : ∃ f', f = f' + 1 := ⟨f - 1, by omega⟩
+    have hlt : L.num 0 < rs.length - 1 := by omega
+    have hjl : j < rs.length := by omega
+    have hj1 : j + 1 < rs.length := by omega
+    have hdrop : rs.drop j = rs[j] :: rs[j + 1] :: rs.drop (j + 2) := by
+      rw [List.drop_eq_getElem_cons hjl, List.drop_eq_getElem_cons hj1]
+    have hb := hbody L s j pos rs[j] hn (by simp) hp
+    simp only [loopN, hcond, hp, hlt, Option.isSome_some, decide_true, Bool.and_self, if_true, hdrop, Op.seqLoop]
+    cases hk : k rs[j] s pos with
+    | error e => simp only [hk] at hb; simp [hb, bind, Except.bind]
+    | ok x =>
+      obtain ⟨res, s1⟩ := x
+      simp only [hk] at hb
+      obtain ⟨L1, h1, h2, h3⟩ := hb
+      cases res with
+      | none =>
+        -- the next loop test sees text == NULL and leaves the loop
+        obtain ⟨f'', rfl⟩ : ∃ f'', f' = f'' + 1 := ⟨f' - 1, by omega⟩
+        simp [h1, bind, Except.bind, loopN, hcond, h3, hrest0 L1 s1 h3]
+      | some p =>
+        have := ih (j + 1) f' L1 s1 p (by omega) (by omega) h2 h3
+        rw [List.drop_eq_getElem_cons hj1] at this
+        simp only [h1, bind, Except.bind] at this ⊢
+        exact this
+
+theorem seq_body (E : Env) (k : OK ρ) (rs : List ρ) (fuel : Nat) :
+    SeqBody k rs (fun L s => execL E k (opsList rs) fuel Gen.PegSkel.RULE_SEQUENCE_body0 L s) := by
+  intro L s j pos r hn hr hp
+  simp only [Gen.PegSkel.RULE_SEQUENCE_body0, execL, execStmt, evalCond, evalRE, evalNE, opsList]
+  have h2 : rs[L.num 0]? = some r := by rw [hn]; exact hr
+  cases hk : k r s pos with
+  | error e => simp [h2, hr, hk, hp, bind, Except.bind]
+  | ok x => obtain ⟨res, s1⟩ := x; simp [h2, hr, hk, hp, hn, bind, Except.bind, upd]
+
+/-- RULE_SEQUENCE: all elements but the last under one `down1`, stopping at the first failure; the last element is a tail
+    call after `up1` -/
+theorem rule_sequence (E : Env) (k : OK ρ) (n fuel : Nat) (rs : List ρ) (s : St) (pos : Nat) (hf : rs.length + 1 ≤ fuel) :
+    runL E k (opsList rs) fuel Gen.PegSkel.RULE_SEQUENCE s pos = Op.step E k n (.sequence rs) s pos := by
+  have hc0 : ∀ L s, evalCond E (opsList rs) L s (.tagZero 1) = (rs.length == 0) :=
+    fun _ _ => by simp [evalCond, opsList, opsWord]
+  simp only [runL, Gen.PegSkel.RULE_SEQUENCE, execL, execStmt, evalNE, Loc.init, Op.step, hc0]
+  by_cases he : rs.isEmpty = true
+  · have : rs.length = 0 := by simpa using he
+    simp [he, this]
+  · have hlen : rs.length ≠ 0 := by simpa using he
+    have hlen' : (rs.length == 0) = false := by simpa using hlen
+    simp only [he, hlen', Bool.false_eq_true, if_false]
+    cases hd : down1 s with
+    | error e => simp [hd, bind, Except.bind]
+    | ok s0 =>
+      simp only [hd, bind, Except.bind]
+      have key := seq_loop k rs
+        (fun L s => evalCond E (opsList rs) L s (.and (.not (.isNull 0)) (.numLtWordPred 0 (.op 1))))
+        (fun L s => execL E k (opsList rs) fuel Gen.PegSkel.RULE_SEQUENCE_body0 L s)
+        (fun L s => execL E k (opsList rs) fuel Gen.PegSkel.RULE_SEQUENCE_rest0 L s)
+        (fun L s => by cases h : L.ptr 0 <;> simp [evalCond, evalWE, opsList, opsWord, h])
+        (seq_body E k rs fuel)
+        (fun L s h0 => by simp [Gen.PegSkel.RULE_SEQUENCE_rest0, execL, execStmt, evalCond, h0, bind, Except.bind])
+        (fun L s pos r hp hr => by
+          have h2le : 2 ≤ 1 + rs.length := by omega
+          have hx : rs[1 + rs.length - 2]? = some r := by
+            rw [show 1 + rs.length - 2 = rs.length - 1 by omega]; exact hr
+          simp [Gen.PegSkel.RULE_SEQUENCE_rest0, execL, execStmt, evalCond, evalRE, opsList, opsWord, h2le, hx, hp, bind, Except.bind]
+          cases k r (up1 s) pos <;> rfl)
+        (rs.length - 1) 0 fuel
+        { ptr := fun x => if x = 0 then some pos else none, cs := fun _ => ⟨0, 0, 0⟩, val := fun _ => .nil,
+          num := upd (fun _ => 0) 0 0, oldmode := false } s0 pos (by omega) (by omega) (by simp [upd]) (by simp)
+      simp only [List.drop_zero] at key
+      generalize loopN _ _ fuel _ s0 = X at key ⊢
+      cases hc : Op.seqLoop k rs s0 pos <;> rcases X with e | (⟨L', s'⟩ | ⟨L', s'⟩ | x) <;> simp_all
+
 end JanetModel.Peg.TieSkel
